@@ -597,9 +597,20 @@ def subst(t, f):
     return go_r(t)
 
 
+def mk_abs(x):
+    """|x| with a canonical sign of the argument (|x| = |-x|)."""
+    if x.is_const():
+        return const(abs(x.const_value()))
+    if x.num and x.num[0][1] < 0:
+        x = -x
+    return atom(("call", "abs", (x,), ()))
+
+
 def rebuild(a):
     """Re-normalise an atom whose children may have changed."""
     k = a[0]
+    if k == "call" and a[1] == "abs" and len(a[2]) == 1 and not a[3]:
+        return mk_abs(a[2][0])
     if k == "cmp":
         return mk_cmp(a[1], a[2], const(0)) if a[1] in (">", ">=", "==", "!=") else atom(a)
     if k == "and":
